@@ -314,7 +314,7 @@ impl Disk
             let entry = &directory.entries[i as usize];
             let beg = u16::from_le_bytes(entry.begin_block);
             let end = u16::from_le_bytes(entry.end_block);
-            if beg>0 && end>beg && (end as usize)<directory.total_blocks() {
+            if beg>0 && end>beg && (end as usize)<=directory.total_blocks() {
                 if name.to_uppercase() == file_name_to_string(entry.name, entry.name_len) {
                     return Ok((Some(i as usize),directory));
                 }
@@ -481,7 +481,7 @@ impl super::DiskFS for Disk {
         for entry in dir.entries {
             let beg = u16::from_le_bytes(entry.begin_block);
             let end = u16::from_le_bytes(entry.end_block);
-            if beg!=0 && end>beg && (end as usize)<total {
+            if beg!=0 && end>beg && (end as usize)<=total {
                 let name = file_name_to_string(entry.name,entry.name_len);
                 let blocks = end - beg;
                 let mut date = "<NO DATE>".to_string();
@@ -514,7 +514,7 @@ impl super::DiskFS for Disk {
         for entry in dir.entries {
             let beg = u16::from_le_bytes(entry.begin_block);
             let end = u16::from_le_bytes(entry.end_block);
-            if beg!=0 && end>beg && (end as usize)<total {
+            if beg!=0 && end>beg && (end as usize)<=total {
                 let name = file_name_to_string(entry.name,entry.name_len);
                 let blocks = end - beg;
                 let type_as_hex = "$".to_string()+ &hex::encode_upper(vec![entry.file_type[0]]);
@@ -538,7 +538,7 @@ impl super::DiskFS for Disk {
         for entry in dir.entries {
             let beg = u16::from_le_bytes(entry.begin_block);
             let end = u16::from_le_bytes(entry.end_block);
-            if beg!=0 && end>beg && (end as usize)<total {
+            if beg!=0 && end>beg && (end as usize)<=total {
                 let name = match case_sensitive {
                     true => file_name_to_string(entry.name, entry.name_len),
                     false => file_name_to_string(entry.name, entry.name_len).to_uppercase()
@@ -564,7 +564,7 @@ impl super::DiskFS for Disk {
         for entry in dir.entries {
             let beg = u16::from_le_bytes(entry.begin_block);
             let end = u16::from_le_bytes(entry.end_block);
-            if beg!=0 && end>beg && (end as usize)<total {
+            if beg!=0 && end>beg && (end as usize)<=total {
                 let key = file_name_to_string(entry.name, entry.name_len);
                 tree["files"][&key] = json::JsonValue::new_object();
                 // file nodes must have no files object at all
